@@ -98,7 +98,11 @@ EXPLANATION = (
     "a call that returns another channel than MA[MAI] of its own inputs is reported with the pair of calls. What rfch_get_params() "
     "stores through its ARFCN output parameter must not read an object of static storage that some function of rfch.c writes (a "
     "remembered ARFCN or frame number at the observation point): such a value is folded for the same call sequences, the hopping "
-    "descriptor changing between the calls, and either refuted with a pair of calls or left without verdict.")
+    "descriptor changing between the calls, and either refuted with a pair of calls or left without verdict. The hopping / "
+    "non-hopping split of rfch_get_params() is folded: with the hopping flag stored next to the descriptor set, a dedicated channel "
+    "of each established type and the ARFCN asked for, the conditions on the way to the stored value are evaluated for every value "
+    "of the descriptor fields they read (N in 1..64, HSN, MAIO in 0..63) and the arm reached must contain the generator's call; a "
+    "descriptor of the domain sent to another arm (N = 1 to the non-hopping branch) is reported with that valuation.")
 ASSUMPTIONS = [
     "spec/hopping.json is a faithful transcription of TS 45.002 table 6.2.3 and of the algorithm of clause 6.2.3",
     "NBIN is the number of bits needed to represent N (TS 45.002 6.2.3), so 2^NBIN - 1 == (1 << N.bit_length()) - 1; the mask is "
@@ -2541,6 +2545,232 @@ def r6_c_use(L, cs, rntable):
 
 
 # ------------------------------------------------------------------------------
+# R6 (split): a hopping channel description reaches the generator for every descriptor of the property's domain
+
+SPLIT_FOLD_CAP = 300000           # valuations of (channel type, descriptor fields read, other objects) one fold may visit
+SPLIT_OTHER_VALUES = (0, 1, 2)    # values tried for objects the split reads that are neither the flag nor the descriptor
+HOPPING_FLAG = 1                  # the value of l1ctl's `h` for a hopping channel description (RR Channel Description, H = 1)
+
+
+def _enumerators(tu):
+    """name -> (value, id of its enum) of every enumerator declared anywhere in the translation unit (enums nested in a
+    struct included: TU.enums lists the file-level ones only)"""
+    out = {}
+    for n in walk(tu.ast):
+        if kind(n) != "EnumDecl":
+            continue
+        val = -1
+        for c in kids(n):
+            if kind(c) != "EnumConstantDecl":
+                continue
+            ks = [x for x in kids(c) if kind(x) not in ("", None) and not (kind(x) or "").endswith("Attr")]
+            v = tu.fold(ks[0]) if ks else None
+            val = v if v is not None else val + 1
+            out.setdefault(c.get("name"), (val, n.get("id")))
+    return out
+
+
+def _shares_union(tu, a, b):
+    """members named a and b are alternatives of one union declared in the translation unit"""
+    for n in walk(tu.ast):
+        if kind(n) == "RecordDecl" and n.get("tagUsed") == "union":
+            names = {c.get("name") for c in kids(n) if kind(c) == "FieldDecl"}
+            if a in names and b in names:
+                return True
+    return False
+
+
+def _split_leaf(t, env):
+    """the arm a conditional term selects under a valuation: (leaf, conditions taken as [(cond, value)]) or (None, cond)
+    when a condition does not fold"""
+    taken = []
+    while t[0] == "ite":
+        c = eval_term(t[1], env)
+        if c is None:
+            return None, t[1]
+        taken.append((t[1], bool(c)))
+        t = t[2] if c else t[3]
+    return t, taken
+
+
+def r6_c_split(L, cs, rntable):
+    """C07.R6 (hopping / non-hopping split), firmware clause "for every ... mobile allocation of 1..64 channels ... the
+    selected channel is MA[MAI]" at the observation point rfch_get_params(time) -> ARFCN with a hopping dedicated channel
+    configured: whenever the channel description says hopping (the flag `h` stored next to the descriptor is set, a
+    dedicated channel is established, the caller asks for the ARFCN) the value stored through the ARFCN output parameter
+    is computed from the hopping generator's result -- for EVERY descriptor of the property's domain (HSN, MAIO in 0..63,
+    N in 1..64), N = 1 included.  Decided by folding, not from the way the test is written: rfch_get_params() is
+    forward-substituted (helpers substituted, the generator's call kept as an opaque term), the conditions on the way to
+    the stored value are folded by the checker's own arithmetic for each valuation of the descriptor fields they read,
+    each established channel type and the hopping flag set, and the arm reached must contain the generator's call.  A
+    valuation of the domain that reaches another arm (e.g. N = 1 sent to the non-hopping branch, which reads the h0 view of
+    the union the descriptor is stored in) is an input on which the firmware does not tune to MA[MAI]: VIOLATION with
+    that valuation.  Conditions over other objects (a remembered result) are tried on a few values: a descriptor that
+    reaches the generator for none of them gives no verdict (ANALYSIS-ERROR), never a violation."""
+    tu = cs.tu
+    g = tu.func("rfch_get_params")
+    L.fn(F_RFCH, "rfch_get_params")
+    gp = [p.get("name") for p in tu.fparams(g)]
+    if len(gp) < 2:
+        raise AnalysisError("rfch_get_params(): expected (t, arfcn_p, ...)")
+    note = L.extra.setdefault("hopping_split", {})
+    val = None
+    for mk in (lambda: _UseSym(tu, cs.HOP), lambda: _UseStructSym(tu, cs.HOP)):
+        try:
+            sym = mk()
+            val = sym.final(sym.run(g), "*%s" % gp[1])
+            break
+        except AnalysisError as e:
+            note["status"] = "skipped: rfch_get_params() is not forward-substituted (%s)" % str(e)[:120]
+    if val is None:
+        return
+    note.pop("status", None)
+    gen_calls = [x for x in G.subterms(val) if x[0] == "call" and x[1] == cs.HOP]
+    if not gen_calls:
+        return          # (R6 use: the floor on generator calls reports this)
+    is_gen = lambda t: any(x[0] == "call" and x[1] == cs.HOP for x in G.subterms(t))
+    # the descriptor the generator is handed: <X>.h1.{hsn, maio, n}; the flag stored next to it: <X>.h
+    descs = set()
+    for c in gen_calls:
+        for a in c[3:6]:
+            for v in variables(a):
+                if _field_role(v[1]):
+                    descs.add(re.sub(r"(\.|->)(hsn|maio|n)$", "", v[1]))
+    if len(descs) != 1:
+        raise AnalysisError("rfch_get_params(): the generator is handed fields of %d objects (%s); unclassifiable" % (
+            len(descs), ", ".join(sorted(descs))[:80]))
+    desc = descs.pop()
+    owner = re.sub(r"(\.|->)+\w+$", "", desc)
+    member = re.split(r"\.|->", desc)[-1]
+    flag = V(owner + ".h")
+    chan = V(owner + ".type")
+    enums = _enumerators(tu)
+    # the conditions on the way to any arm
+    conds = set()
+
+    def collect(t):
+        if t[0] == "ite":
+            conds.add(t[1])
+            collect(t[2])
+            collect(t[3])
+    collect(val)
+    cvars = set()
+    for c in conds:
+        cvars |= variables(c)
+    fixed, domain, other = {V(gp[1]): 1, flag: HOPPING_FLAG}, {}, []
+    none_enum = None
+    for v in sorted(cvars, key=repr):
+        if v in fixed:
+            continue
+        if v[1] in enums:
+            fixed[v] = enums[v[1]][0]
+            continue
+        if v == chan:
+            continue
+        r = _field_role(v[1])
+        if r is not None and v[1].startswith(desc):
+            domain[v] = range(USE_DOMAIN[r][0], USE_DOMAIN[r][1] + 1)
+            continue
+        other.append(v)
+    if chan in cvars:
+        # every established channel type: the enumerators of the type's enum but the one that means "no dedicated channel"
+        ids = {enums[v[1]][1] for v in cvars if v[1] in enums}
+        cmpd = [v for v in cvars if v[1] in enums]
+        if len(ids) != 1 or not cmpd:
+            raise AnalysisError("rfch_get_params(): `%s` is tested in a way that is not a comparison with enumerators of one enum; "
+                                "unclassifiable" % _disp(chan[1]))
+        eid = ids.pop()
+        none_enum = [n for n, (val_, i) in enums.items() if i == eid and n.endswith("_NONE")]
+        if len(none_enum) != 1:
+            raise AnalysisError("rfch_get_params(): the enum of `%s` has no single `..._NONE` enumerator; unclassifiable" % _disp(chan[1]))
+        types = sorted({val_ for n, (val_, i) in enums.items() if i == eid and n != none_enum[0]} - {enums[none_enum[0]][0]})
+        if not types:
+            raise AnalysisError("rfch_get_params(): no channel type besides %s; unclassifiable" % none_enum[0])
+    else:
+        types = [None]
+    if len(other) > 4:
+        raise AnalysisError("rfch_get_params(): the ARFCN stored depends on %d objects besides the channel type, the hopping flag "
+                            "and the descriptor (%s ...); unclassifiable" % (len(other), ", ".join(_disp(v[1]) for v in other[:3])))
+    dvars = sorted(domain, key=repr)
+    size = len(types) * (len(SPLIT_OTHER_VALUES) ** len(other))
+    for v in dvars:
+        size *= len(domain[v])
+    if size > SPLIT_FOLD_CAP and len(types) > 2:
+        types = [types[0], types[-1]]
+        size = size // max(1, len(types)) * 2
+    if size > SPLIT_FOLD_CAP:
+        raise AnalysisError("rfch_get_params(): the split reads %s; %d valuations exceed the fold; unclassifiable" % (
+            ", ".join(_disp(v[1]) for v in dvars + other)[:120], size))
+    k, bad, undecided, unfolded = 0, [], [], None
+    for combo in itertools.product(*[domain[v] for v in dvars]):
+        for ty in types:
+            env0 = dict(fixed)
+            env0.update(zip(dvars, combo))
+            if ty is not None:
+                env0[chan] = ty
+            reached, miss = False, None
+            for oc in itertools.product(SPLIT_OTHER_VALUES, repeat=len(other)):
+                env = dict(env0)
+                env.update(zip(other, oc))
+                k += 1
+                leaf, taken = _split_leaf(val, env)
+                if leaf is None:
+                    unfolded = taken
+                    continue
+                if is_gen(leaf):
+                    reached = True
+                    break
+                if miss is None:
+                    miss = (leaf, taken)
+            if reached:
+                continue
+            if miss is None:
+                continue
+            (bad if not other else undecided).append((dict(zip(dvars, combo)), ty, miss))
+    if unfolded is not None and not bad:
+        raise AnalysisError("rfch_get_params(): the condition `%s` on the way to the ARFCN stored cannot be folded; unclassifiable" % (
+            _disp(G.show(unfolded))[:120]))
+    dom = ", ".join("%s in %d..%d" % ((_field_role(v[1]),) + USE_DOMAIN[_field_role(v[1])]) for v in dvars) or \
+        "no descriptor field is read by the split"
+    key = "rfch_get_params(): with a hopping channel description (`%s` set, a dedicated channel established, ARFCN asked for) the " \
+          "ARFCN stored is computed from the result of %s() for every descriptor of the property's domain (HSN, MAIO in 0..63, " \
+          "N in 1..64)" % (_disp(flag[1]), cs.HOP)
+    want = "the generator's result on every valuation"
+    note.update({"valuations_folded": k, "descriptor_fields_read": [_disp(v[1]) for v in dvars],
+                 "other_objects_read": [_disp(v[1]) for v in other], "channel_types": [t for t in types if t is not None]})
+    if bad:
+        envb, ty, (leaf, taken) = bad[0]
+        last = [c for c, pol in taken if variables(c) & (set(dvars) | {flag})]
+        cond = last[-1] if last else taken[-1][0]
+        pol = dict((c, p) for c, p in taken)[cond]
+        alias = ""
+        lv = [v[1] for v in variables(leaf)]
+        for x in lv:
+            if x.startswith(owner):
+                m2 = re.split(r"\.|->", x[len(owner):].lstrip(".->"))[0]
+                if m2 != member and _shares_union(tu, m2, member):
+                    alias = "; `%s` is the %s view of the union the descriptor %s is stored in (sync.h): its bytes are the " \
+                            "descriptor's hsn / maio, not a channel" % (_disp(x), m2, member)
+        L.ob("C07.R6", F_RFCH, "rfch_get_params", key, want,
+             "%s%s: `%s` is stored, not the generator's result (the test `%s` is %s there)%s; %d of %d valuations folded (%s) miss "
+             "the generator" % (", ".join("%s = %d" % (_field_role(v[1]).upper() if _field_role(v[1]) != "n" else "N", envb[v])
+                                          for v in dvars) or "every descriptor",
+                                "" if ty is None else " (channel type %d)" % ty, _disp(G.show(leaf))[:80],
+                                _disp(G.show(cond))[:120], "true" if pol else "false", alias, len(bad), k, dom), False, tu.line(g))
+        return
+    if undecided:
+        envb, ty, (leaf, taken) = undecided[0]
+        raise AnalysisError("rfch_get_params(): for %s the generator's result is stored for none of the tried values of %s; "
+                            "unclassifiable" % (", ".join("%s = %d" % (_disp(v[1]), envb[v]) for v in dvars) or "a hopping channel",
+                                                ", ".join(_disp(v[1]) for v in other)))
+    L.ob("C07.R6", F_RFCH, "rfch_get_params", key, want,
+         "the generator's result on all %d valuations folded (%s; channel types %s%s)" % (
+             k, dom, ", ".join(str(t) for t in types if t is not None) or "not read",
+             "; reached for some tried value of %s" % ", ".join(_disp(v[1]) for v in other) if other else ""), True, tu.line(g))
+    L.floor("C07.R6", "valuations of the hopping split folded", k, 1)
+
+
+# ------------------------------------------------------------------------------
 # R9: the entry the generator selected reaches the caller of rfch_get_params() unchanged
 
 GEN_RESULT = V("<MA[MAI]>")
@@ -3746,30 +3976,8 @@ def _static_objects(tu, funcs):
     return out
 
 
-def _maybe_written(tu, ids):
-    """the ids of `ids` some function of the translation unit uses other than by reading a value out of it (stores, ++, an
-    address taken, the object handed on): only an object that is never written holds its initialiser for ever"""
-    out = set()
-    for fname, fd in tu.functions.items():
-        if not any(kind(c) == "CompoundStmt" for c in kids(fd)):
-            continue
-        for x in walk(tu.body(fd)):
-            if kind(x) != "DeclRefExpr" or x.get("referencedDecl", {}).get("id") not in ids:
-                continue
-            cur, par, sized = x, tu.parent.get(id(x)), False
-            q = par
-            while q is not None and kind(q) != "FunctionDecl":
-                sized = sized or kind(q) == "UnaryExprOrTypeTraitExpr"
-                q = tu.parent.get(id(q))
-            if sized:
-                continue
-            while par is not None and (kind(par) == "ParenExpr" or (kind(par) == "MemberExpr" and not par.get("isArrow")) or (
-                    kind(par) == "ImplicitCastExpr" and par.get("castKind") == "ArrayToPointerDecay") or (
-                    kind(par) == "ArraySubscriptExpr" and kids(par)[0] is cur)):
-                cur, par = par, tu.parent.get(id(par))
-            if not (kind(par) == "ImplicitCastExpr" and par.get("castKind") == "LValueToRValue"):
-                out.add(x["referencedDecl"]["id"])
-    return out
+# (the who-writes scan of objects of static storage lives in rules/c19.py: shared with C19.R4)
+_maybe_written = G.maybe_written
 
 
 def r10_c_getter_state(L, gen, spec):
@@ -3940,6 +4148,7 @@ def run(L, tier):
     L.stage(r6_py_returns, L, py_s)
     L.stage(r6_getters, L, repo)
     L.stage(r6_c_use, L, cs, spec["RNTABLE"])
+    L.stage(r6_c_split, L, cs, spec["RNTABLE"])
     L.stage(r9_c_carriage, L, cs)
     L.stage(r10_c_sequences, L, gen, spec)
     L.stage(r10_c_getter_state, L, gen, spec)
